@@ -33,7 +33,7 @@ def sizeClasses (ps : List Bytes) : List String :=
 def handleC09 (inp obs : List String) : Verdict :=
   match inp with
   | "w" :: rest =>
-    let parsed := (do let stack ← nat; let cap ← nat; let plan ← many pWFault; let ps ← many bytes; pure (stack, cap, plan, ps)).run rest
+    let parsed := (do let stack ← nat; let cap ← nat; let _kind ← nat; let plan ← many pWFault; let ps ← many bytes; pure (stack, cap, plan, ps)).run rest
     let pobs : Option ((Option (Bool × Option Bool × Bytes × List (IoRes Bytes))) × List String) := (do
       match (← peek?) with
       | some "panic" => pure none
@@ -78,7 +78,7 @@ def handleC09 (inp obs : List String) : Verdict :=
           | none => { kind := "ok", nontrivial, classes }
     | _, _ => { kind := "badcase", detail := "unparsable C09 write case" }
   | "r" :: rest =>
-    let parsed := (do let stack ← nat; let plan ← many pRFault; let ps ← many bytes; pure (stack, plan, ps)).run rest
+    let parsed := (do let stack ← nat; let _kind ← nat; let plan ← many pRFault; let ps ← many bytes; pure (stack, plan, ps)).run rest
     let pobs : Option (Option (List (IoRes Bytes)) × List String) := (do
       match (← peek?) with
       | some "panic" => pure none
